@@ -69,4 +69,52 @@ theorem source_storage_model (ctx : SCtx) (st : TState) (cell : Option (List Mem
       | none => rw [hr] at this; simp at this
       | some p => rw [hr] at this; simp at this; simp [this, popStack, h]
 
+/-! ### the `?`-leaf label and the flatten-mode flag -/
+
+/-- what the label cell can hold: nothing yet, `None`, or a label -/
+def TreepathCellOk (cell : Option KVal) : Prop := cell = none ∨ cell = some .none ∨ ∃ i S, cell = some (.label i S)
+
+/-- `clear_` / `set_` / `get_treepath_memo`, translated from the source read today, for every content of the cell:
+    clearing stores `None`; setting raises AnnotationError (and changes nothing) when a label is set, and otherwise
+    stores the label of THIS index and structure name; reading returns the label, or raises AnnotationError without one -/
+theorem source_cell_treepath (ctx : KCtx) (cell : Option KVal) (h : TreepathCellOk cell) :
+    runCellFn Generated.treepathFuns ctx Generated.clearTreepathCode cell = some (some .none, .inl .none) ∧
+    runCellFn Generated.treepathFuns ctx Generated.setTreepathCode cell
+      = (match cell with
+         | some (.label _ _) => some (cell, .inr ())
+         | _ => some (some (.label ctx.index ctx.sname), .inl .none)) ∧
+    runCellFn Generated.treepathFuns ctx Generated.getTreepathCode cell
+      = (match cell with
+         | some (.label i S) => some (cell, .inl (.label i S))
+         | _ => some (cell, .inr ())) := by
+  obtain ⟨idx, S⟩ := ctx
+  rcases h with rfl | rfl | ⟨i, S', rfl⟩ <;> cases idx <;>
+    simp [runCellFn, Generated.treepathFuns, Generated.clearTreepathCode, Generated.setTreepathCode, Generated.getTreepathCode,
+      KStmt.run, KExpr.eval, ktruthy, List.lookup]
+
+/-- in the model's vocabulary (`tp : TreePath`): after clearing there is no label; setting the label of leaf `i` of
+    structure `S` where there was none gives exactly `(i, S)` -/
+theorem source_cell_treepath_model (i : Nat) (S : String) (cell : Option KVal) (h : TreepathCellOk cell) :
+    ((runCellFn Generated.treepathFuns ⟨some i, S⟩ Generated.clearTreepathCode cell).map fun r => tpOfCell r.1) = some none ∧
+    ((∀ j S', cell ≠ some (.label j S')) →
+      ((runCellFn Generated.treepathFuns ⟨some i, S⟩ Generated.setTreepathCode cell).map fun r => tpOfCell r.1) = some (some (i, S))) := by
+  have hh := source_cell_treepath ⟨some i, S⟩ cell h
+  refine ⟨by rw [hh.1]; rfl, fun hn => ?_⟩
+  rw [hh.2.1]
+  rcases h with rfl | rfl | ⟨j, S', rfl⟩
+  · rfl
+  · rfl
+  · exact (hn j S' rfl).elim
+
+def FlattenCellOk (cell : Option KVal) : Prop := cell = none ∨ ∃ b, cell = some (.bool b)
+
+/-- `clear_` / `set_` / `get_treeflatten_memo`: stores False / True; reads the flag, False in a thread that never set it -/
+theorem source_cell_flatten (ctx : KCtx) (cell : Option KVal) (h : FlattenCellOk cell) :
+    runCellFn Generated.treeflattenFuns ctx Generated.clearTreeflattenCode cell = some (some (.bool false), .inl .none) ∧
+    runCellFn Generated.treeflattenFuns ctx Generated.setTreeflattenCode cell = some (some (.bool true), .inl .none) ∧
+    runCellFn Generated.treeflattenFuns ctx Generated.getTreeflattenCode cell = some (cell, .inl (.bool (flattenOfCell cell))) := by
+  rcases h with rfl | ⟨b, rfl⟩ <;>
+    simp [runCellFn, Generated.treeflattenFuns, Generated.clearTreeflattenCode, Generated.setTreeflattenCode, Generated.getTreeflattenCode,
+      KStmt.run, KExpr.eval, ktruthy, List.lookup, flattenOfCell]
+
 end JV
